@@ -7,6 +7,8 @@ package ethereum
 
 // constants of this package for use in other packages' contracts
 //@ ghost func trkStNew() TrackerState = New
+//@ ghost func trkStBusyBroadcasting() TrackerState = BusyBroadcasting
+//@ ghost func trkStBusyFinalizing() TrackerState = BusyFinalizing
 //@ ghost func trkStFinalized() TrackerState = Finalized
 //@ ghost func trkStReleased() TrackerState = Released
 //@ ghost func trkStFailed() TrackerState = Failed
@@ -146,6 +148,10 @@ package ethereum
 //@ model trkSlot(*TrackerStore) array[string]array[string]array[int]int
 //@ ghost func trkPfx(ts *TrackerStore, k int) string = k == PrefixFailed ? str(ts.prefixfailed) : (k == PrefixPassed ? str(ts.prefixsuccess) : str(ts.prefixongoing))
 //@ ghost func trkRecorded(ts *TrackerStore, p string, t *Tracker) bool = trkHas(ts)[p][trkNameStr(t.TrackerName)] && trkType(ts)[p][trkNameStr(t.TrackerName)] == t.Type && trkState(ts)[p][trkNameStr(t.TrackerName)] == t.State && trkOwner(ts)[p][trkNameStr(t.TrackerName)] == str(t.ProcessOwner) && trkTx(ts)[p][trkNameStr(t.TrackerName)] == str(t.SignedETHTx) && trkTo(ts)[p][trkNameStr(t.TrackerName)] == str(t.To) && trkN(ts)[p][trkNameStr(t.TrackerName)] == len(t.Witnesses) && trkYes(ts)[p][trkNameStr(t.TrackerName)] == trkYesVotes(t) && trkNo(ts)[p][trkNameStr(t.TrackerName)] == trkNoVotes(t) && (forall i int :: 0 <= i && i < len(t.Witnesses) ==> trkWitAt(ts)[p][trkNameStr(t.TrackerName)][i] == str(t.Witnesses[i]) && trkSlot(ts)[p][trkNameStr(t.TrackerName)][i] == t.FinalityVotes[i])
+// trkWfStore(ts): the three key spaces of the store are different (NewTrackerStore is called with three distinct prefixes)
+//@ ghost func trkWfStore(ts *TrackerStore) bool = ts != nil && str(ts.prefixongoing) != str(ts.prefixsuccess) && str(ts.prefixongoing) != str(ts.prefixfailed) && str(ts.prefixsuccess) != str(ts.prefixfailed)
+// trkOthersSame(ts, n): no record of a tracker named other than n differs from the entry state (any key space)
+//@ ghost func trkOthersSame(ts *TrackerStore, n string) bool = forall q string, m string :: m != n ==> trkHas(ts)[q][m] == old(trkHas(ts))[q][m] && trkType(ts)[q][m] == old(trkType(ts))[q][m] && trkState(ts)[q][m] == old(trkState(ts))[q][m] && trkOwner(ts)[q][m] == old(trkOwner(ts))[q][m] && trkTx(ts)[q][m] == old(trkTx(ts))[q][m] && trkTo(ts)[q][m] == old(trkTo(ts))[q][m] && trkN(ts)[q][m] == old(trkN(ts))[q][m] && trkYes(ts)[q][m] == old(trkYes(ts))[q][m] && trkNo(ts)[q][m] == old(trkNo(ts))[q][m] && trkWitAt(ts)[q][m] == old(trkWitAt(ts))[q][m] && trkSlot(ts)[q][m] == old(trkSlot(ts))[q][m]
 //@ ghost func trkIn(ts *TrackerStore, k int, n ethereum.TrackerName) bool = trkHas(ts)[trkPfx(ts, k)][trkNameStr(n)]
 //@ ghost func trkFinalizedIn(ts *TrackerStore, k int, n ethereum.TrackerName) bool = 3 * trkYes(ts)[trkPfx(ts, k)][trkNameStr(n)] > 2 * trkN(ts)[trkPfx(ts, k)][trkNameStr(n)]
 //@ ghost func trkFailedIn(ts *TrackerStore, k int, n ethereum.TrackerName) bool = 3 * trkNo(ts)[trkPfx(ts, k)][trkNameStr(n)] > 2 * trkN(ts)[trkPfx(ts, k)][trkNameStr(n)]
@@ -164,10 +170,20 @@ package ethereum
 //@   ensures err == nil ==> result0 != nil && fresh(result0) && fresh(arr(result0.FinalityVotes)) && fresh(arr(result0.Witnesses)) && trkHas(ts)[str(ts.prefix)][trkNameStr(key)]
 //@   ensures err == nil ==> result0.Type == trkType(ts)[str(ts.prefix)][trkNameStr(key)] && result0.State == trkState(ts)[str(ts.prefix)][trkNameStr(key)] && result0.TrackerName == key
 //@   ensures err == nil ==> str(result0.SignedETHTx) == trkTx(ts)[str(ts.prefix)][trkNameStr(key)] && str(result0.ProcessOwner) == trkOwner(ts)[str(ts.prefix)][trkNameStr(key)] && str(result0.To) == trkTo(ts)[str(ts.prefix)][trkNameStr(key)]
+//@   ensures trkGetOK(ts) ==> err == nil
 //@   ensures err == nil ==> trkWf(result0) && trkDistinctW(result0) && 2 * len(result0.Witnesses) <= 9223372036854775807
 //@   ensures err == nil ==> len(result0.Witnesses) == trkN(ts)[str(ts.prefix)][trkNameStr(key)] && trkYesVotes(result0) == trkYes(ts)[str(ts.prefix)][trkNameStr(key)] && trkNoVotes(result0) == trkNo(ts)[str(ts.prefix)][trkNameStr(key)]
 
 //@   ensures err == nil ==> forall i int :: 0 <= i && i < len(result0.Witnesses) ==> str(result0.Witnesses[i]) == trkWitAt(ts)[str(ts.prefix)][trkNameStr(key)][i] && result0.FinalityVotes[i] == trkSlot(ts)[str(ts.prefix)][trkNameStr(key)][i]
+
+// trkGetOK(ts): environment flag "reads of this store do not fail" (no gas exhaustion, records decode). Nobody can
+// establish it; app.doEthTransitions `assumes` it because it ignores the error of Get for the names it has just iterated.
+//@ model trkGetOK(*TrackerStore) bool
+//@ assume func (*TrackerStore).Iterate
+//@   iterator
+//@   requires ts != nil                                                                                       // C18.nil-store
+//@   modifies nothing
+//@   yields y0 != nil && y1 != nil
 
 //@ assume func (*TrackerStore).Set
 //@   requires ts != nil && trkWf(tracker) && trkDistinctW(tracker) && 2 * len(tracker.Witnesses) <= 9223372036854775807      // C15.store-inv
@@ -197,8 +213,21 @@ package ethereum
 //@   ensures result1 == nil ==> trkHas(ts) == old(trkHas(ts))[str(ts.prefix) := old(trkHas(ts))[str(ts.prefix)][trkNameStr(key) := false]]
 //@   ensures result1 != nil ==> trkHas(ts) == old(trkHas(ts))
 
+// WithPrefixType MUTATES the store and returns THE SAME object: two results of WithPrefixType are aliases, the prefix
+// in force is the one selected by the LAST call.
 //@ func (*TrackerStore).WithPrefixType
 //@   safety C18
 //@   requires ts != nil                                                                                       // C18.nil-store
 //@   modifies ts.prefix
-//@   ensures result == ts && str(ts.prefix) == trkPfx(ts, prefix) || (prefix != PrefixFailed && prefix != PrefixPassed && prefix != PrefixOngoing && result == ts && ts.prefix == old(ts.prefix))   // C15.store-select
+//@   ensures result == ts                                                                                     // C15.store-select
+//@   ensures prefix == PrefixFailed ==> ts.prefix == ts.prefixfailed                                          // C15.store-select
+//@   ensures prefix == PrefixPassed ==> ts.prefix == ts.prefixsuccess                                         // C15.store-select
+//@   ensures prefix == PrefixOngoing ==> ts.prefix == ts.prefixongoing                                        // C15.store-select
+//@   ensures prefix != PrefixFailed && prefix != PrefixPassed && prefix != PrefixOngoing ==> ts.prefix == old(ts.prefix)   // C15.store-select
+
+// Clean keeps only Type, State and TrackerName (no witnesses, no votes): the copy satisfies the store invariant
+//@ func (*Tracker).Clean
+//@   safety C18
+//@   requires t != nil                                                                                        // C18.nil-tracker
+//@   modifies nothing
+//@   ensures result != nil && fresh(result) && result.Type == t.Type && result.State == t.State && result.TrackerName == t.TrackerName && len(result.Witnesses) == 0 && len(result.FinalityVotes) == 0 && trkStorable(result)   // C15.clean-copy
